@@ -29,8 +29,9 @@ RULE = ('exhaustive box: line width w in 1..5 x sequence length n in 0..11 x {LF
         'alone -- ids that are prefixes of each other, mixed case, duplicate ids, numbers around the 1/2/3-byte field widths -- written '
         'with FastaBinarySearchFile.write and compared byte for byte with the modelled file, read_header()/read()/get(key) for present '
         'and absent keys, _pack/_unpack); machine cases (120 quick / 2500 thorough, both back ends: one index, a history of add (several '
-        'files in any order, names sorting against creation order, binary with/without force, the same file again, an empty first add '
-        'as `sugar index create` does) / reopen / get / len / files, after every add the index file is read back, at the end every '
+        'files in any order, names sorting against creation order and in sub directories, binary with/without force, the same file '
+        'again, add calls without files first (`sugar index create`) and later) / reopen / get / iter calls with mixed lists / len / '
+        'files, after every add the index file is read back, at the end every '
         'record is queried; every output is compared with the state machine model); corpus = witnesses of F11-F13, F15, F16, F29 as a '
         'machine run. '
         'non-trivial = distinct case whose queries cross a line break, are clipped, start beyond the end, hit an empty record, '
@@ -465,6 +466,15 @@ def run_machine(case, d):
                     res.append(_one_query(idx, [q['api'], q['id'], q['i'], q['j']] if q['rng'] else [q['api'], q['id']]))
                 elif op == 'len':
                     res.append(len(idx))
+                elif op == 'iter':
+                    # ONE call of iter / iter_fasta / iter_fastaheader with a list of plain ids and (id, i, j) triples
+                    arg = [_py(_mq(dict(q, api=o['api']))) for q in o['items']]
+                    if o['api'] == 0:
+                        res.append([[_b(x.id), _b(x.meta._fasta.header), str(x)] for x in idx.iter(arg)])
+                    elif o['api'] == 1:
+                        res.append(list(idx.iter_fasta(arg)))
+                    else:
+                        res.append(list(idx.iter_fastaheader(arg)))
                 else:
                     res.append([idx.path, list(idx.files)])
             except Exception as e:
@@ -532,6 +542,18 @@ def _mq(q):
     return [q['api'], q['id'], q['i'], q['j']] if q['rng'] else [q['api'], q['id']]
 
 
+def coq_item(q):
+    if not q['rng']:
+        return '(QId %s)' % coq_bs(q['id'])
+    return '(QTriple %s %s %s)' % (coq_bs(q['id']), coq_opt(q['i'], coq_z), coq_opt(q['j'], coq_z))
+
+
+def coq_xop(o):
+    if o['op'] == 'iter':
+        return '(XIter %s %s)' % (coq_N(o['api']), coq_list([coq_item(q) for q in o['items']]))
+    return '(XOp %s)' % coq_op(o)
+
+
 def coq_op(o):
     op = o['op']
     if op == 'add':
@@ -549,8 +571,8 @@ def model_term(case):
                                                  coq_list([coq_bs(k) for k in case['keys']]))
     if is_machine_case(case):
         env = coq_list(['(%s, %s)' % (coq_bs(f['name']), coq_file(f)) for f in case['env']])
-        return 'out (run_C09_hist %s %s %s %s %s)' % (coq_N(MODES[mode_of(case)]), coq_bs(_hs()), coq_bs('{dbpath}/'), env,
-                                                      coq_list([coq_op(o) for o in case['ops']]))
+        return 'out (run_C09_xhist %s %s %s %s %s)' % (coq_N(MODES[mode_of(case)]), coq_bs(_hs()), coq_bs('{dbpath}/'), env,
+                                                       coq_list([coq_xop(o) for o in case['ops']]))
     if is_header_case(case):
         from sugar.index.fastaindex import FastaBinarySearchFile
         return 'out (run_C09_header %s %s %s %s)' % (coq_N(MODES[mode_of(case)]), coq_bs(FastaBinarySearchFile.headerstart),
@@ -622,6 +644,14 @@ def _canon_machine(case, v):
                 pass
         elif o['op'] == 'files' and isinstance(r, list) and len(r) == 2 and isinstance(r[1], list):
             r = [r[0], sorted(set(r[1]))]
+        elif o['op'] == 'iter' and o['api'] == 1 and isinstance(r, list) and len(r) == len(o['items']):
+            rr = []
+            for q, x in zip(o['items'], r):
+                if q['rng'] and not (q['i'] is None and q['j'] is None) and isinstance(x, str):
+                    k = x.find('\n') + 1
+                    x = [x[:k], x[k:].replace('\n', '').replace('\r', '')] if k else [x]
+                rr.append(x)
+            r = rr
         if o['op'] == 'get' and o['q']['api'] == 1 and o['q']['rng'] and not (o['q']['i'] is None and o['q']['j'] is None) \
                 and isinstance(r, str):
             k = r.find('\n') + 1
@@ -805,6 +835,22 @@ def spec_machine(case, got):
             sp = _check_query(q, r, known)
             if sp:
                 return sp
+        elif op == 'iter':
+            known = {i: recs_all[i] for i in recs_all if fileof[i] in added}
+            qs = [_mq(dict(q, api=o['api'])) for q in o['items']]
+            quirk = len(qs) == 3 and len(qs[1]) == 4
+            if quirk:
+                continue                # one (id, start, stop) query with a tuple as start: outside the quantifier
+            if isinstance(r, dict):
+                if all(q[1] in known for q in qs):
+                    return 'iter%r raised %s' % (qs, r['e'])
+            elif len(r) != len(qs):
+                return 'iter%r gave %d answers' % (qs, len(r))
+            else:
+                for q, x in zip(qs, r):
+                    sp = _check_query(q, x, known)
+                    if sp:
+                        return 'iter: ' + sp
         elif op == 'len':
             if len(set(added)) == len(added) and r != nrec:
                 return 'len(index) = %r, %d records added' % (r, nrec)
@@ -1235,16 +1281,25 @@ def machine_case(rng, mode=None):
         c = rng.random()
         if c < 0.40:
             ops.append({'op': 'get', 'q': q()})
-        elif c < 0.50:
+        elif c < 0.48:
             ops.append({'op': 'len'})
-        elif c < 0.58:
+        elif c < 0.54:
             ops.append({'op': 'files'})
+        elif c < 0.62:
+            # one iter call with a mixed list; a list of three with a triple in the middle is ONE (id, start, stop) query
+            # for _search and ends in TypeError: generated rarely, with a plain known id first
+            api = rng.choice([0, 1, 2])
+            items = [dict(q(), api=api) for _ in range(rng.choice([1, 2, 2, 4, 5, 3]))]
+            if len(items) == 3 and items[1]['rng']:
+                if rng.random() < 0.8:
+                    items.append(dict(q(), api=api))
+                else:
+                    items[0] = Q(api, items[0]['id'])
+            ops.append({'op': 'iter', 'api': api, 'items': items})
         elif c < 0.72:
             ops.append({'op': 'reopen'})
             reopened = True
         else:
-            if mode == 'db' and reopened:
-                continue            # PENDING FIX dbreadonly: a reopened dbm index is opened read-only, add() raises
             ks = rng.sample(range(nenv), rng.randint(1, nenv))
             if rng.random() < 0.15:
                 ks = ks + [ks[0]]
@@ -1537,7 +1592,10 @@ LEVEL_TEXT = ('Machine-checked Coq theorems (all unbounded unless said otherwise
               'whatever follows), hist_modes_agree (the same history on a binary and a dbm index: same registered files, an id found by '
               'one iff by the other with the same numbers, identical answer to every query), hist_queries_agree (header-only answer = '
               'first line of the whole-record text, which parses to what get returns; get(id,i,j) = slice of get(id); too-large end = open '
-              'end), hist_len (dbm len = number of distinct records held, binary len = records in the file, equal without duplicates). '
+              'end), hist_len (dbm len = number of distinct records held, binary len = records in the file, equal without duplicates), '
+              'iter_spec / iter_quirk (iter / iter_fasta / iter_fastaheader on a list of ids and triples: the single answers in order, '
+              'or the exception of the first failing item; the three-item list with a triple in the middle is ONE query for _search: '
+              'header form answers with the first header alone, the other forms end in TypeError). '
               'Byte layouts: pack_iff / stored_db_iff (F15 exactly: _pack/_unpack round-trip iff file number and line length < 65536; '
               'the dbm store returns the record or OverflowError accordingly), record_roundtrip (fixed-width record: ljust/rstrip id + '
               'big-endian integers), file_roundtrip (the whole binary index file -- magic, offsets, header, field table, sorted records '
@@ -1551,9 +1609,9 @@ LEVEL_NOTE = ('Trusted / tested only: mmap and dbm (dbm.dumb here) keeping the b
               'modelled: the reader model splits at LF, which gives the same stripped lines on files without a lone CR); add(seek=N) '
               '(exercised relationally, not modelled); BioSeq metadata and query forms (list / iterators / several ids per call) are '
               'relational streams. Open findings excluded from wf_C09 / wf_hist_C09: F15 (dbm line length >= 65536; pack_iff / '
-              'stored_db_iff state it exactly), F16 (dbm id "header": the model keeps the header under that key like the code). PENDING FIX '
-              'dbreadonly (build/pending_fixes/C09_dbreadonly.*): a dbm index that was opened again is read-only, add() on it raises '
-              '(binary works; `sugar index add` on a dbm index always fails); such histories are outside wf_hist_C09 and not generated. '
+              'stored_db_iff state it exactly), F16 (dbm id "header": the model keeps the header under that key like the code). F51 (found by the '
+              'history stream of this round, fixed in /repo d6a9af0): a dbm index that was opened again was read-only, add() on it raised; '
+              'reopen -> add histories are inside the domain in both modes now, the witness is in corpus/C09. '
               'Observed, outside the quantifier: after a lookup of an unknown id binarysearchfile leaves a closed handle in its object, '
               'so the next operation on the same FastaIndex object raises ValueError (the harness drops the handle); len(index) before '
               'the first add raises in both modes; add(force=True) on a binary index whose file does not exist yet raises '
